@@ -51,7 +51,9 @@ func (c *Caser) Identifierize(s string) string {
 
 	rIdent := []rune(ident)
 	if len(rIdent) > 0 {
-		if !unicode.IsLetter(rIdent[0]) || isNotCaseSensitiveLetter(rIdent[0]) {
+		// An exported Go identifier must start with an upper case letter. That
+		// also rules out letters that have no upper case form.
+		if !unicode.IsUpper(rIdent[0]) {
 			ident = "A" + ident
 		}
 	}
@@ -61,10 +63,6 @@ func (c *Caser) Identifierize(s string) string {
 	}
 
 	return ident
-}
-
-func isNotCaseSensitiveLetter(r rune) bool {
-	return !unicode.IsUpper(r) && !unicode.IsLower(r)
 }
 
 func (c *Caser) Capitalize(s string) string {
@@ -115,7 +113,7 @@ func splitIdentifierByCaseAndSeparators(s string) []string {
 		case unicode.IsUpper(r):
 			nextState = stateUpper
 
-		case unicode.IsNumber(r):
+		case unicode.IsDigit(r): // Only decimal digits (Nd) may appear in a Go identifier.
 			nextState = stateNumber
 
 		case !unicode.IsLetter(r): // Non-letter characters.
